@@ -107,6 +107,7 @@ type Proxy struct {
 	refuse     bool
 	failNext   int
 	blackNext  int // the next n websocket connections fall silent right after their handshake
+	swallow    int // the next n connections are accepted but their upgrade request is never answered
 	faults     []*Fault
 	frames     []FrameInfo
 	protoErrs  []string
@@ -169,6 +170,14 @@ func (p *Proxy) FailNext(n int) {
 func (p *Proxy) BlackholeNext(n int) {
 	p.mu.Lock()
 	p.blackNext = n
+	p.mu.Unlock()
+}
+
+// SwallowNext: the next n connections are accepted at the TCP level, their HTTP upgrade request is read and
+// never answered (a black hole in the middle of the handshake).
+func (p *Proxy) SwallowNext(n int) {
+	p.mu.Lock()
+	p.swallow = n
 	p.mu.Unlock()
 }
 
@@ -479,6 +488,19 @@ func (p *Proxy) serve(pc *pconn) {
 		return
 	}
 	isUpgrade := bytes.Contains(bytes.ToLower(hdr), []byte("upgrade: websocket"))
+	p.mu.Lock()
+	sw := false
+	if isUpgrade && p.swallow > 0 {
+		p.swallow--
+		sw = true
+	}
+	p.mu.Unlock()
+	if sw {
+		core.Log.Note("px.swallow", fmt.Sprintf("c%d upgrade request swallowed", pc.n))
+		pc.c.SetReadDeadline(time.Now().Add(110 * time.Second))
+		io.Copy(io.Discard, cbr) // until the client gives up
+		return
+	}
 	if !isUpgrade {
 		// plain HTTP: raw relay with byte-position faults
 		done := make(chan struct{}, 2)
